@@ -100,7 +100,22 @@ def rand_basic_index(rng, shape, allow_newaxis=True, allow_ellipsis=True, allow_
 
 
 def rand_adv_index(rng, shape, allow_repeats=True):
-    """Advanced index (integer arrays / boolean mask / mixed). nd >= 1 and all sides >= 1."""
+    """Advanced index (integer arrays / boolean mask / mixed). nd >= 1 and all sides >= 1.
+    Integer index arrays take a random integer dtype (NumPy accepts any) in a third of the cases."""
+    ix = _rand_adv_index(rng, shape, allow_repeats)
+    if rng.random() < 0.35:
+        dt = rng.choice(["int32", "int16", "intp", "int8", "uint8"])
+        def conv(a):
+            if isinstance(a, np.ndarray) and a.dtype.kind == "i":
+                if dt.startswith("u") and (a < 0).any():
+                    return a
+                return a.astype(dt)
+            return a
+        ix = tuple(conv(a) for a in ix) if isinstance(ix, tuple) else conv(ix)
+    return ix
+
+
+def _rand_adv_index(rng, shape, allow_repeats=True):
     nd = len(shape)
     c = rng.random()
     if c < 0.3:  # boolean mask over leading k axes
@@ -389,8 +404,14 @@ def g_binary(b, fn=None):
             x = b.adapt(x, 0.5, 2.5)
             if x is None:
                 return None
-        if rng.random() < 0.5:
+        r = rng.random()
+        if r < 0.4:
             y, yr = rng.choice([1, 2, 3, -1, 0.5, 2.5, -1.5]), []   # incl. the **1 / **2 special routes
+        elif r < 0.6:
+            # a (trainable) TENSOR exponent whose value happens to be exactly 1 or 2: must not take the scalar special routes
+            n = b.leaf((), values=np.array(rng.choice([1.0, 2.0, 2.0, 3.0])), constant=rng.choice([None, None, True]))
+            y, yr = R(n), [n]
+            force_sp = rng.choice(["op", "op", "mg", "np"])
         else:
             y, yr = other_operand(b, x)
         args, refs = [R(x), y], [x] + yr
@@ -406,6 +427,8 @@ def g_binary(b, fn=None):
     anyt = True
     first_t = isinstance(args[0], list) and args[0][0] == "r" and b.meta[args[0][1]]["tensor"]
     sp = b.spelling(fn, first_t, anyt)
+    if fn == "power" and "force_sp" in locals():
+        sp = force_sp
     if sp == "op" and not any(isinstance(a, list) and a[0] == "r" and b.meta[a[1]]["tensor"] for a in args):
         sp = "mg"
     if sp == "op" and isinstance(args[0], list) and args[0][0] == "s":
@@ -501,6 +524,10 @@ def g_reduce(b, fn=None):
     if xv.size == 0:
         return None
     ax = rand_axis(rng, xv.ndim)
+    if xv.ndim >= 3 and rng.random() < 0.5:
+        # several-but-not-all axes of a >=3-d operand (every ordered pair, so that non-self-inverse permutations occur)
+        k = rng.randint(2, xv.ndim - 1)
+        ax = tuple(a if rng.random() < 0.6 else a - xv.ndim for a in rng.sample(range(xv.ndim), k))
     kw = {}
     if ax is not None or rng.random() < 0.2:
         kw["axis"] = enc_axis(ax, b)
@@ -898,11 +925,12 @@ def g_batchnorm(b):
 def g_gru(b):
     rng = b.rng
     T, N, C, D = rng.randint(1, 3), rng.randint(1, 2), rng.randint(1, 3), rng.randint(1, 3)
-    names = [b.leaf((T, N, C), lo=0.2, hi=1.0, kind=rng.choice(["tensor", "tensor", "array"]))]
+    # C-contiguous float64 only: numba compiles one specialisation per (dtype, layout) signature, ~20 s each
+    names = [b.leaf((T, N, C), lo=0.2, hi=1.0, kind=rng.choice(["tensor", "tensor", "array"]), layout="C", dtype="float64")]
     for _ in range(3):
-        names.append(b.leaf((C, D), lo=0.2, hi=1.0, constant=rng.choice([None, None, None, True])))
-        names.append(b.leaf((D, D), lo=0.2, hi=1.0))
-        names.append(b.leaf((D,), lo=0.2, hi=1.0, kind=rng.choice(["tensor", "tensor", "array"])))
+        names.append(b.leaf((C, D), lo=0.2, hi=1.0, constant=rng.choice([None, None, None, True]), layout="C", dtype="float64"))
+        names.append(b.leaf((D, D), lo=0.2, hi=1.0, layout="C", dtype="float64"))
+        names.append(b.leaf((D,), lo=0.2, hi=1.0, kind=rng.choice(["tensor", "tensor", "array"]), layout="C", dtype="float64"))
     kw = {}
     if rng.random() < 0.4:
         kw["s0"] = enc_arr(rand_values(rng, (N, D), 0.1, 0.8))
